@@ -206,7 +206,7 @@ theorem good_run_sim (par : Armor.Params) (hdr ftr : Bytes) (H : List Bytes)
     Sim (farmRun (FArm.init par hdr ftr ({} : Wr)).2 H) (H.foldl ArmState.write (ArmState.init par hdr ftr)) ∧
     okBytes (FArm.init par hdr ftr ({} : Wr)).2 H = H.flatten := by
   obtain ⟨hi, hg0⟩ := farm_init_good par hdr ftr
-  obtain ⟨hs, hf, _⟩ := farm_init_sim par hdr ftr [] hi
+  obtain ⟨hs, hf, _⟩ := farm_init_sim par hdr ftr [] [] hi
   obtain ⟨r1, _⟩ := run_sim H _ _ hs hg0.2.2 hf
   exact ⟨(r1 hg.2.1).1, okBytes_all H _ hf hg.2.1⟩
 
